@@ -8,8 +8,8 @@ CHECKS = {
              design_ref="DESIGN.md §7 C11",
              level_text="Two runs of the real application over generated worlds and block histories, one with generated CheckTx / simulate / query traffic at every point between "
                         "ABCI calls; transcripts and final store dumps must be identical. Exploration: bounded histories (≤14 blocks), small worlds.",
-             level_note="Trusts the chain simulator to play Tendermint faithfully (ABCI call order, block store, tx indexer), tm-db MemDB, rapid. Process-global side effects of a simulated "
-                        "upgrade are visible only if a later block depends on them. A second test (TestC11Claims, same check) runs the differential on histories with relay claims and proofs "
+             level_note="Trusts the chain simulator to play Tendermint faithfully (ABCI call order, block store, tx indexer), tm-db MemDB, rapid. The process-global activation schedule "
+                        "(upgrade heights, feature heights) is compared around every noise call as part of the state the next block builds on. A second test (TestC11Claims, same check) runs the differential on histories with relay claims and proofs "
                         "(the C13 generator) with the traffic restricted to CheckTx / simulate of the block's own transactions before delivery and ABCI / RPC queries at any height.",
              also=[dict(group="abci", test="TestC11Claims", quick=dict(checks=100, timeout=600), thorough=dict(checks=800, shards=8, timeout=3000))]),
 }
